@@ -381,3 +381,50 @@ M("C19", "fallback-overwrites-all", "dataslates/_variants.py", "            valu
 M("C19", "overwrites-before-fallbacks", "dataslates/_variants.py", "        self._apply_fallbacks(fallbacks, invariant, )\n        self._apply_overwrites(overwrites, invariant, )", "        self._apply_overwrites(overwrites, invariant, )\n        self._apply_fallbacks(fallbacks, invariant, )", "C19-R3")
 T("C19", "twin-mark-fstring", "databoxes/_exports.py", '    return "__" + frequency.name.lower() + "__"', '    return f"__{frequency.name.lower()}__"')
 T("C19", "twin-lockstep-rename", "dataslates/main.py", "            v.remove_periods_from_end(remove, )", "            v.remove_periods_from_end(remove)")
+
+# ------------------------------------------------------------------------------------------------ rules added after the seeded-change rounds
+KAL = "fords/kalmans.py"
+M("C03", "smoother-skips-empty-period", KAL, "    if t <= cache.last_period_of_observations:", "    if t <= cache.last_period_of_observations and cache.all_num_obs[t]:", "C03-R7")
+M("C03", "last-obs-unconditional", KAL, "        if any_y:\n            cache.last_period_of_observations = t", "        if True:\n            cache.last_period_of_observations = t", "C03-R7")
+T("C03", "twin-guard-flipped", KAL, "    if t <= cache.last_period_of_observations:", "    if cache.last_period_of_observations >= t:")
+M("C08", "smoother-skips-empty-period", KAL, "    if t <= cache.last_period_of_observations:", "    if t <= cache.last_period_of_observations and cache.all_num_obs[t]:", "C08-R4")
+SOLF = "fords/solutions.py"
+M("C08", "expansion-memo-shared", SOLF, "            self.triangular_expansion,\n            self.Pa, self.Xa, self.J, self.Ru,", "            self.square_expansion,\n            self.Pa, self.Xa, self.J, self.Ru,", "C08-R5")
+M("C01", "expansion-memo-shared", SOLF, "            self.triangular_expansion,\n            self.Pa, self.Xa, self.J, self.Ru,", "            self.square_expansion,\n            self.Pa, self.Xa, self.J, self.Ru,", "C01-R6")
+M("C01", "expansion-memo-not-reset", SOLF, "        self.square_expansion = []\n        self.triangular_expansion = []\n", "        self.square_expansion = []\n", "C01-R6")
+T("C01", "twin-expansion-reset-order", SOLF, "        self.square_expansion = []\n        self.triangular_expansion = []\n", "        self.triangular_expansion = []\n        self.square_expansion = []\n")
+PLN_ = "plans/simulation_plans.py"
+M("C07", "span-end-exclusive", PLN_, "        return per >= self.start and per <= self.end", "        return self.start <= per < self.end", "C07-R1")
+M("C07", "span-start-exclusive", PLN_, "        return per >= self.start and per <= self.end", "        return per > self.start and per <= self.end", "C07-R1")
+T("C07", "twin-span-chained", PLN_, "        return per >= self.start and per <= self.end", "        return self.start <= per <= self.end")
+M("C07", "conditioning-window-mixed", "fords/simulators.py", "        packed = (plan_registers, input_data_array, squid, frame.simulation_slice, )", "        packed = (plan_registers, input_data_array, squid, frame.slice, )", "C07-R3")
+M("C07", "conditioning-crop-mixed", "fords/simulators.py", "    curr_xi_exogenized = curr_xi_exogenized[:, frame.simulation_slice]", "    curr_xi_exogenized = curr_xi_exogenized[:, frame.slice]", "C07-R3")
+DT = "dates.py"
+M("C09", "span-serials-cached", DT, "    @property\n    def _serials(self) -> range | None:", "    @_ft.cached_property\n    def _serials(self) -> range | None:", "C09-R8")
+T("C09", "twin-cached-on-immutable-period", DT, "    @property\n    def segment(self, ) -> int:\n        return self.to_year_segment()[1]", "    @_ft.cached_property\n    def segment(self, ) -> int:\n        return self.to_year_segment()[1]")
+AR = "series/arip.py"
+M("C12", "arip-count-instead-of-distance", AR, "        num_low_periods = where_finite[-1] - where_finite[0]", "        num_low_periods = where_finite.size - 1", "C12-R7")
+M("C12", "arip-rate-inverted", AR, "((last_low_value / first_low_value) ** (1 / num_low_periods))", "((first_low_value / last_low_value) ** (1 / num_low_periods))", "C12-R7")
+M("C12", "arip-convert-direction", AR, "        return _conversions.convert_diff(low_diff, low_freq, high_freq, )", "        return _conversions.convert_diff(low_diff, high_freq, low_freq, )", "C12-R7")
+M("C12", "arip-last-vector", AR, "    return [0, ]*(num_within-1) + [1, ]", "    return [0, ]*num_within + [1, ]", "C12-R7")
+M("C12", "arip-mean-vector", AR, "    return [1/num_within, ] * num_within", "    return [1/num_within, ] * (num_within-1) + [0, ]", "C12-R7")
+T("C12", "twin-arip-distance-rewritten", AR, "        num_low_periods = where_finite[-1] - where_finite[0]", "        num_low_periods = -(where_finite[0] - where_finite[-1])")
+SM = "series/main.py"
+M("C13", "yoy-lead", SM, "        self._shift_by_number(-self.frequency.value, )", "        self._shift_by_number(self.frequency.value, )", "C13-R6")
+M("C13", "soy-uses-eopy", SM, "            t.create_soy()\n            for t in self.span", "            t.create_eopy()\n            for t in self.span", "C13-R6")
+M("C13", "period-yoy-calendar", DT, "                return self - self.frequency.value", "                return self.from_year_segment(self.get_year() - 1, self.to_year_segment()[1])", "C13-R6")
+M("C13", "tty-neutral-on-nonnull", SM, "        neutral_periods = tuple(t for t, tty in zipped if tty is None)", "        neutral_periods = tuple(t for t, tty in zipped if tty is not None)", "C13-R6")
+M("C13", "shift-number-sign", SM, "        self.start -= by", "        self.start += by", "C13-R6")
+T("C13", "twin-yoy-product", SM, "        self._shift_by_number(-self.frequency.value, )", "        self._shift_by_number(-1*self.frequency.value, )")
+M("C14", "filter-matrix-aliased", H, "        F = _np.copy(self._F)", "        F = self._F", "C14-R3")
+M("C14", "filter-matrix-inplace", H, "        F = _np.copy(self._F)\n        quasi_eye = _np.diag(_np.float64(~_np.isnan(data.flatten(), )))\n        F[:self._num_periods, :self._num_periods] += quasi_eye\n        return F", "        quasi_eye = _np.diag(_np.float64(~_np.isnan(data.flatten(), )))\n        self._F[:self._num_periods, :self._num_periods] += quasi_eye\n        return self._F", "C14-R3")
+T("C14", "twin-filter-matrix-copy-method", H, "        F = _np.copy(self._F)", "        F = self._F.copy()")
+STD = "simultaneous/_steady.py"
+M("C05", "no-unknowns-either", STD, "        has_no_qids = (not block_level_qids) and (not block_change_qids)", "        has_no_qids = not (block_level_qids and block_change_qids)", "C05-R7")
+M("C05", "no-unknowns-level-only", STD, "        has_no_qids = (not block_level_qids) and (not block_change_qids)", "        has_no_qids = not block_level_qids", "C05-R7")
+T("C05", "twin-no-unknowns-demorgan", STD, "        has_no_qids = (not block_level_qids) and (not block_change_qids)", "        has_no_qids = not (block_level_qids or block_change_qids)")
+BLZ = "incidences/blazer.py"
+M("C16", "prefetch-last-appended", BLZ, "        eids_last = eids_last_next + eids_last\n        qids_last = qids_last_next + qids_last", "        eids_last = eids_last + eids_last_next\n        qids_last = qids_last + qids_last_next", "C16-R3")
+M("C16", "prefetch-first-prepended", BLZ, "        eids_first = eids_first + eids_first_next", "        eids_first = eids_first_next + eids_first", "C16-R3")
+M("C05", "prefetch-last-appended", BLZ, "        eids_last = eids_last_next + eids_last\n        qids_last = qids_last_next + qids_last", "        eids_last = eids_last + eids_last_next\n        qids_last = qids_last + qids_last_next", "C05-R8")
+M("C06", "terminal-skips-unanticipated-zeroing", "frames.py", "        if self.start == self.simulation_end:", "        if self.start == self.end:", "C06-R5")
